@@ -666,7 +666,8 @@ func (f *Frame) siteAsserts(key string, ord int, args []EV, sig *types.Signature
 		return
 	}
 	for _, sa := range top.con.Sites {
-		if !strings.Contains(key, sa.Callee) {
+		name := key[strings.LastIndex(key, ".")+1:]
+		if name != sa.Callee && !(strings.Contains(sa.Callee, ".") && strings.HasSuffix(key, sa.Callee)) {
 			continue
 		}
 		if sa.Ord >= 0 && sa.Ord != ord {
